@@ -703,6 +703,17 @@ func (i *AgentIPC) handleMembers(client *IPCClient, command string, seq uint64) 
 	return client.Send(&header, &resp)
 }
 
+// compileFullMatch compiles expr into a regular expression that must match
+// the whole string. The expression is validated on its own first and then
+// wrapped in a non-capturing group, so that the anchors apply to the whole
+// expression (e.g. to every branch of "a|b") and cannot change its validity.
+func compileFullMatch(expr string) (*regexp.Regexp, error) {
+	if _, err := regexp.Compile(expr); err != nil {
+		return nil, err
+	}
+	return regexp.Compile(fmt.Sprintf("^(?:%s)$", expr))
+}
+
 func (i *AgentIPC) filterMembers(members []serf.Member, tags map[string]string,
 	status string, name string) ([]serf.Member, error) {
 
@@ -711,19 +722,19 @@ func (i *AgentIPC) filterMembers(members []serf.Member, tags map[string]string,
 	// Pre-compile all the regular expressions
 	tagsRe := make(map[string]*regexp.Regexp)
 	for tag, expr := range tags {
-		re, err := regexp.Compile(fmt.Sprintf("^%s$", expr))
+		re, err := compileFullMatch(expr)
 		if err != nil {
 			return nil, fmt.Errorf("Failed to compile regex: %v", err)
 		}
 		tagsRe[tag] = re
 	}
 
-	statusRe, err := regexp.Compile(fmt.Sprintf("^%s$", status))
+	statusRe, err := compileFullMatch(status)
 	if err != nil {
 		return nil, fmt.Errorf("Failed to compile regex: %v", err)
 	}
 
-	nameRe, err := regexp.Compile(fmt.Sprintf("^%s$", name))
+	nameRe, err := compileFullMatch(name)
 	if err != nil {
 		return nil, fmt.Errorf("Failed to compile regex: %v", err)
 	}
